@@ -1020,15 +1020,12 @@ class Container:
         if numerator == 0:
             return 0
 
-        if units[1].endswith('L'):
-            denominator = self.get_volume(units[1])
-        else:
-            denominator = 0
-            for substance, amount in self.contents.items():
-                if substance.is_enzyme():
-                    denominator += Unit.convert_from(substance, amount, 'U', units[1])
-                else:
-                    denominator += Unit.convert_from(substance, amount, config.moles_storage_unit, units[1])
+        denominator = 0
+        for substance, amount in self.contents.items():
+            if substance.is_enzyme():
+                denominator += Unit.convert_from(substance, amount, 'U', units[1])
+            else:
+                denominator += Unit.convert_from(substance, amount, config.moles_storage_unit, units[1])
 
         return round(numerator / denominator / mult, config.internal_precision)
 
